@@ -442,7 +442,7 @@ package hashgraph
 //@   ensures[err] ret1 != nil ==> ret0 == nil
 
 //@ iface func (s Store) SetBlock(block *Block) error
-//@   requires block != nil
+//@   requires block != nil && block.Signatures != nil
 //@   modifies G_blocks(s), G_bodies(s), G_fault(s), G_lastBlock(s)
 //@   ensures[last]  (ret0 == nil ==> G_lastBlock(s) == __ite(block.Body.Index > old(G_lastBlock(s)), block.Body.Index, old(G_lastBlock(s)))) && (ret0 != nil ==> G_lastBlock(s) == old(G_lastBlock(s)))
 //@   ensures[set]   ret0 == nil ==> __eq(G_blocks(s), __upd(old(G_blocks(s)), block.Body.Index, block)) && __eq(G_bodies(s), __upd(old(G_bodies(s)), block.Body.Index, block.Body))
@@ -595,7 +595,7 @@ package hashgraph
 //@ ghost func FrameWF(f *Frame) bool { return len(f.Peers) < 2147483648 && (forall i int :: 0 <= i && i < len(f.Peers) ==> f.Peers[i] != nil && __allocated(f.Peers[i])) && (forall k int :: 0 <= k && k < len(f.Events) ==> f.Events[k] != nil && f.Events[k].Core != nil) }
 
 //@ iface func (s Store) SetRound(roundIndex int, roundInfo *RoundInfo) error
-//@   requires roundInfo != nil
+//@   requires roundInfo != nil && roundInfo.CreatedEvents != nil
 //@   modifies G_rounds(s), G_fault(s)
 //@   ensures[set]    ret0 == nil ==> __eq(G_rounds(s), __upd(old(G_rounds(s)), roundIndex, roundInfo))
 //@   ensures[refuse] ret0 != nil ==> __eq(G_rounds(s), old(G_rounds(s)))
@@ -610,11 +610,10 @@ package hashgraph
 //@ iface func (s Store) GetFrame(roundReceived int) (*Frame, error)
 //@   modifies nothing
 //@   ensures[hit]  ret1 == nil ==> ret0 != nil && __in(roundReceived, G_frames(s)) && ret0 == G_frames(s)[roundReceived] && FrameWF(ret0)
-//@   ensures[miss] common.IsStore(ret1, common.KeyNotFound) ==> !__in(roundReceived, G_frames(s))
 //@   ensures[err]  ret1 != nil ==> ret0 == nil
 
 //@ iface func (s Store) SetFrame(frame *Frame) error
-//@   requires frame != nil
+//@   requires frame != nil && FrameWF(frame)
 //@   modifies G_frames(s), G_fault(s)
 //@   ensures[set] ret0 == nil ==> __eq(G_frames(s), __upd(old(G_frames(s)), frame.Round, frame))
 
@@ -971,3 +970,59 @@ package hashgraph
 
 //@ iface func (s Store) ParticipantEvents(participant string, skip int) ([]string, error)
 //@   modifies nothing
+
+// ------------------------------------------------------------------------------------------------
+// InmemStore against the Store contracts (C16, and the assumption behind every use of the Store view).
+// `implements Store.M` makes the interface method's (elsewhere assumed) contract an obligation of the method body;
+// `ghostset` is the ghost code that maintains the view. coupled(): every entry of a cache is the view's entry for
+// that key (the caches may forget - eviction - but never invent or alter), and the counters agree.
+// Encapsulation (the store's internal objects are not reachable from its clients) is assumed.
+//@ ghost func (s *InmemStore) coupled() bool { return s.roundCache != nil && s.blockCache != nil && s.frameCache != nil && s.eventCache != nil && s.roundCache != s.blockCache && s.roundCache != s.frameCache && s.roundCache != s.eventCache && s.blockCache != s.frameCache && s.blockCache != s.eventCache && s.frameCache != s.eventCache && G_lastBlock(s) == s.lastBlock && s.roundsCoupled() && s.blocksCoupled() && s.framesCoupled() }
+//@ ghost func (s *InmemStore) roundsCoupled() bool { return forall r int :: __in(interface{}(r), common.G_m(s.roundCache)) ==> __in(r, G_rounds(s)) && common.G_m(s.roundCache)[interface{}(r)] == interface{}(G_rounds(s)[r]) && G_rounds(s)[r] != nil && G_rounds(s)[r].CreatedEvents != nil }
+//@ ghost func (s *InmemStore) blocksCoupled() bool { return forall i int :: __in(interface{}(i), common.G_m(s.blockCache)) ==> __in(i, G_blocks(s)) && common.G_m(s.blockCache)[interface{}(i)] == interface{}(G_blocks(s)[i]) && G_blocks(s)[i] != nil && G_blocks(s)[i].Body.Index == i && G_blocks(s)[i].Signatures != nil }
+//@ ghost func (s *InmemStore) framesCoupled() bool { return forall i int :: __in(interface{}(i), common.G_m(s.frameCache)) ==> __in(i, G_frames(s)) && common.G_m(s.frameCache)[interface{}(i)] == interface{}(G_frames(s)[i]) && G_frames(s)[i] != nil && FrameWF(G_frames(s)[i]) }
+
+//@ func (s *InmemStore) GetRound(r int) (*RoundInfo, error)
+//@   implements Store.GetRound
+//@   requires s != nil && s.coupled()
+//@   modifies nothing
+//@   ensures[notfound] ret1 != nil ==> common.IsStore(ret1, common.KeyNotFound)
+
+//@ func (s *InmemStore) SetRound(r int, round *RoundInfo) error
+//@   implements Store.SetRound
+//@   requires s != nil && s.coupled()
+//@   modifies common.G_m(s.roundCache), s.lastRound
+//@   ghostset G_rounds(s) := __upd(G_rounds(s), r, round) when ret0 == nil
+//@   ensures[coupled] s.coupled()
+
+//@ func (s *InmemStore) GetBlock(index int) (*Block, error)
+//@   implements Store.GetBlock
+//@   requires s != nil && s.coupled()
+//@   modifies nothing
+//@   ensures[notfound] ret1 != nil ==> common.IsStore(ret1, common.KeyNotFound)
+
+//@ func (s *InmemStore) SetBlock(block *Block) error
+//@   implements Store.SetBlock
+//@   requires s != nil && s.coupled()
+//@   modifies common.G_m(s.blockCache), s.lastBlock
+//@   ghostset G_blocks(s) := __upd(G_blocks(s), block.Body.Index, block) when ret0 == nil
+//@   ghostset G_bodies(s) := __upd(G_bodies(s), block.Body.Index, block.Body) when ret0 == nil
+//@   ghostset G_lastBlock(s) := s.lastBlock
+//@   ensures[coupled] s.coupled()
+
+//@ func (s *InmemStore) LastBlockIndex() int
+//@   implements Store.LastBlockIndex
+//@   requires s != nil && s.coupled()
+
+//@ func (s *InmemStore) GetFrame(index int) (*Frame, error)
+//@   implements Store.GetFrame
+//@   requires s != nil && s.coupled()
+//@   modifies nothing
+//@   ensures[notfound] ret1 != nil ==> common.IsStore(ret1, common.KeyNotFound)
+
+//@ func (s *InmemStore) SetFrame(frame *Frame) error
+//@   implements Store.SetFrame
+//@   requires s != nil && s.coupled()
+//@   modifies common.G_m(s.frameCache)
+//@   ghostset G_frames(s) := __upd(G_frames(s), frame.Round, frame) when ret0 == nil
+//@   ensures[coupled] s.coupled()
